@@ -219,6 +219,17 @@ def rule_propagation(ctx, crate, rule="R-TAB-PROPAGATION"):
                 ok = ok and x.must_pass([0], [c.bb])
             else:
                 ok = ok and x.in_loop(c.bb) and K.in_variant_region(x, crate, c.bb, adt, {v})
+        # a holder reached inside a loop over a collection (template parts, custom keys) is reached for *every* element: the loop
+        # has no exit other than the end of the iteration (an early `break` "once one literal is up to date" leaves the rest stale)
+        for x, c in hit:
+            if not x.in_loop(c.bb):
+                continue
+            loop = {c.bb} | {y for y in x.reach_after(c.bb) if c.bb in x.reach_after(y)}
+            nexts = [k for k in x.calls(r"std::iter::Iterator::next") if k.bb in loop]
+            rets = set(x.return_blocks())
+            if nexts and c.target is not None:
+                esc = x.reach([c.target], avoid=[k.bb for k in nexts]) & rets
+                ok = ok and not esc
         ctx.check(ok, rule, "holder:%s.%s" % (adt.rsplit("::", 1)[-1], f), b.name, hit[0][1].loc() if hit else K.fn_loc(b),
                   "set_tab_width reaches this holder with the new width", "changing the tab width does not re-expand %s::%s.%s" % (adt, v, f), cfg)
     # widths: stored from the parameter on every path
